@@ -34,3 +34,25 @@ for name, body in parts.items():
     s = pat.sub(lambda mm: mm.group(1) + body + "\n" + mm.group(2), s)
 open(f"{V}/DESIGN.md", "w").write(s)
 print(f"fixed={sum(e['status'] == 'fixed' for e in k)} open={len(opn)} seeded={n} detected={det}")
+
+# ---- harness inventory (from the check modules themselves)
+import importlib, sys
+sys.path.insert(0, V)
+inv = ["| Property | Harness | Real functions driven | Quick-tier bounds |", "|---|---|---|---|"]
+for i in range(1, 21):
+    pid = f"C{i:02d}"
+    try:
+        mod = importlib.import_module(f"checks.{pid}")
+    except Exception as e:      # the inventory needs bionumpy importable; keep the old table otherwise
+        inv = None
+        break
+    for h in mod.HARNESSES:
+        fn = "; ".join(h.functions) if isinstance(h.functions, (tuple, list)) else str(h.functions)
+        inv.append(f"| {pid} | `{h.name}` | {fn.replace('|', '/')[:400]} | {h.bounds.get('quick', '').replace('|', '/')} |")
+if inv:
+    s = open(f"{V}/DESIGN.md").read()
+    pat = re.compile(r"(<!-- BEGIN:harnesses -->\n).*?(<!-- END:harnesses -->)", re.S)
+    if pat.search(s):
+        s = pat.sub(lambda mm: mm.group(1) + "\n".join(inv) + "\n" + mm.group(2), s)
+        open(f"{V}/DESIGN.md", "w").write(s)
+        print("harness inventory:", len(inv) - 2, "harnesses")
